@@ -198,6 +198,14 @@ func c19EncodeOps(e *ofbase.Encoder, ops []c19op) {
 
 type c19fail struct{ sig, detail string }
 
+// results of raw reads of the current case, re-examined after all later reads
+type c19held struct {
+	got, want []byte
+	op        int
+}
+
+var c19Held []c19held
+
 // c19Read reads ops[i:j) from d, whose first byte sits at absolute offset abs0
 // of the message; with probability it carves sub-ranges into nested slice
 // decoders. Returns the first disagreement with the model.
@@ -295,8 +303,13 @@ func c19Read(rt *rapid.T, d *ofbase.Decoder, ops []c19op, i, j, abs0, depth int,
 					return bad(rest)
 				}
 				d.Skip(len(o.raw))
-			} else if v := d.Read(len(o.raw)); !bytes.Equal(v, o.raw) {
-				return bad(v)
+			} else {
+				v := d.Read(len(o.raw))
+				if !bytes.Equal(v, o.raw) {
+					return bad(v)
+				}
+				// what a read returned stays what it was while the decoder moves on
+				c19Held = append(c19Held, c19held{v, o.raw, k})
 			}
 		case 6:
 			d.SkipAlign()
@@ -365,7 +378,16 @@ func TestC19(t *testing.T) {
 		var plan []string
 		var f *c19fail
 		buf := append([]byte{}, got...)
+		c19Held = c19Held[:0]
 		fr, msg := safeCall(func() { f = c19Read(rt, ofbase.NewDecoder(buf), ops, 0, len(ops), 0, 0, &plan) })
+		if fr == "" && f == nil {
+			for _, h := range c19Held {
+				if !bytes.Equal(h.got, h.want) {
+					f = &c19fail{"C19|Read|value-changed-by-later-read", fmt.Sprintf("the bytes returned for op %d (%x) read %x after later reads on the same decoder", h.op, h.want, h.got)}
+					break
+				}
+			}
+		}
 		if fr != "" {
 			c.Report(rt, "C19|Decoder|panic|"+fr, fmt.Sprintf("%s :: history %v plan %v", msg, strs, plan), strs)
 			return
